@@ -2870,6 +2870,16 @@ def translate() -> tuple[str, dict]:
         if m_init is None:
             raise TranslateError('instancing.py: Manifest.__init__ not found')
         m_locals = _single_assigned_locals(m_init)
+        stores_: dict[str, int] = {}
+        for n_ in ast.walk(m_init):
+            if isinstance(n_, ast.Name) and isinstance(n_.ctx, (ast.Store, ast.Del)):
+                stores_[n_.id] = stores_.get(n_.id, 0) + 1
+        for st_ in m_init.body:          # `a, b = X, Y` at the top level of __init__, each name bound once
+            if isinstance(st_, ast.Assign) and len(st_.targets) == 1 and isinstance(st_.targets[0], ast.Tuple) and isinstance(st_.value, ast.Tuple) \
+                    and len(st_.targets[0].elts) == len(st_.value.elts):
+                for t_, v_ in zip(st_.targets[0].elts, st_.value.elts):
+                    if isinstance(t_, ast.Name) and stores_.get(t_.id) == 1 and not any(isinstance(x_, ast.Name) for x_ in ast.walk(v_) if x_ is not getattr(v_, 'func', None)):
+                        m_locals[t_.id] = v_
         sup = [n for n in ast.walk(m_init) if isinstance(n, ast.Call) and isinstance(n.func, ast.Attribute) and n.func.attr == '__init__'
                and ast.unparse(n.func.value) in ('super()', 'Instance', 'super(Manifest, self)')]
         if len(sup) != 1:
